@@ -25,3 +25,13 @@ TAGS = {
     "hash_keyaggcoef": b"KeyAgg coefficient",
     "hash_musignonce": b"MuSig/noncecoef",
 }
+
+# SLIP-0132 registered HD version bytes (https://github.com/satoshilabs/slips/blob/master/slip-0132.md)
+SLIP132 = {
+    "mainnet_prv": {"0488ade4": "xprv", "049d7878": "yprv", "04b2430c": "zprv", "0295b005": "Yprv", "02aa7a99": "Zprv"},
+    "mainnet_pub": {"0488b21e": "xpub", "049d7cb2": "ypub", "04b24746": "zpub", "0295b43f": "Ypub", "02aa7ed3": "Zpub"},
+    "testnet_prv": {"04358394": "tprv", "044a4e28": "uprv", "045f18bc": "vprv", "024285b5": "Uprv", "02575048": "Vprv"},
+    "testnet_pub": {"043587cf": "tpub", "044a5262": "upub", "045f1cf6": "vpub", "024289ef": "Upub", "02575483": "Vpub"},
+}
+BIP32_SEED_KEY = b"Bitcoin seed"
+HARDENED = 0x80000000
